@@ -298,6 +298,26 @@ def call_ext(it: Any, f: ExtV, args: List[Any], kwargs: Dict[str, Any], node: An
         names = [p.arg for p in fa.posonlyargs + fa.args] + ([fa.vararg.arg] if fa.vararg else []) + [p.arg for p in fa.kwonlyargs] + ([fa.kwarg.arg] if fa.kwarg else [])
         params = {n: Obj("inspect.Parameter", attrs={"name": n}, open_attrs=False) for n in names}
         return Obj("inspect.Signature", attrs={"parameters": params}, open_attrs=False)
+    if name == "inspect.getmembers" and args and hasattr(args[0], "info"):
+        mi_ = args[0].info
+        out = []
+        for nm in sorted(mi_.names()):
+            try:
+                out.append((nm, mi_.get(nm)))
+            except Exception:
+                out.append((nm, Unknown("member")))
+        return out
+    if name == "inspect.getmodule" and args:
+        from .values import ModV
+
+        m_ = args[0]
+        if isinstance(m_, (FuncV, ClassV)):
+            return ModV(m_.module)
+        if isinstance(m_, ModV):
+            return m_
+        if isinstance(m_, ExtV):
+            return ExtV(m_.name.rsplit(".", 1)[0]) if "." in m_.name else m_
+        return None
     if name == "itertools.zip_longest":
         seqs = [it.concrete_iter(a) for a in args]
         if any(x is None for x in seqs):
@@ -336,6 +356,8 @@ def call_ext(it: Any, f: ExtV, args: List[Any], kwargs: Dict[str, Any], node: An
         it.log("call", node, callee=name, args=args, kwargs=kwargs, bound=None, result=None)
         r = TMX.expr_equal(args[0], args[1]) if all(isinstance(a, (int, sp.Basic)) for a in args[:2]) else None
         return bool(r) if r is not None else False
+    if name == "inspect.signature" and args and isinstance(args[0], Obj) and "_signature" in args[0].attrs:
+        return Obj("inspect.Signature", attrs={"parameters": {n: Obj("inspect.Parameter", attrs={"name": n}, open_attrs=False) for n in args[0].attrs["_signature"]}}, open_attrs=False)
     if name == "inspect.signature" and args and isinstance(args[0], ExtV):
         sig = torchsig.SIGS.get(args[0].name, [])
         return Obj("inspect.Signature", attrs={"parameters": {n: Obj("inspect.Parameter", attrs={"name": n}, open_attrs=False) for n, _ in sig}}, open_attrs=False)
